@@ -79,10 +79,15 @@ GRV_CMD(features) {
                     if (p) gr_label_destroy(p);
                 }
             }
-            {   // unknown language -> defaults
-                gr_feature_val *a = gr_face_featureval_for_lang(fc.face, 0x7A7A7A00u), *b = gr_face_featureval_for_lang(fc.face, 0);
-                for (size_t k = 0; k < fc.fref.size(); ++k) if (gr_fref_feature_value(fc.fref[k], a) != gr_fref_feature_value(fc.fref[k], b)) report_fail("C18", "unknown language does not give the defaults", J(line, 500));
-                gr_featureval_destroy(a); gr_featureval_destroy(b);
+            {   // unknown language -> defaults; tag 0 and the all-space tag -> defaults (also when the Sill table has an entry
+                // under tag 0), and they are the values the Feat table declares first
+                gr_feature_val *a = gr_face_featureval_for_lang(fc.face, 0x7A7A7A00u), *b = gr_face_featureval_for_lang(fc.face, 0), *c = gr_face_featureval_for_lang(fc.face, 0x20202020u);
+                for (size_t k = 0; k < fc.fref.size(); ++k) {
+                    if (gr_fref_feature_value(fc.fref[k], a) != gr_fref_feature_value(fc.fref[k], b)) report_fail("C18", "unknown language does not give the defaults", J(line, 500));
+                    if (gr_fref_feature_value(fc.fref[k], c) != gr_fref_feature_value(fc.fref[k], b)) report_fail("C18", "the all-space language tag does not give what tag 0 gives", J(line, 500));
+                    if (!fc.defs[k].empty() && gr_fref_feature_value(fc.fref[k], b) != unsigned(fc.defs[k][0])) report_fail("C18", "language 0 does not give the font's default values", J(line, 500));
+                }
+                gr_featureval_destroy(a); gr_featureval_destroy(b); gr_featureval_destroy(c);
             }
             if (sweep) for (size_t k = 0; k < fc.defs.size(); ++k) {          // all 65536 values on feature k
                 long mx = -1; for (long long s : fc.defs[k]) mx = std::max<long>(mx, long(s));
@@ -120,7 +125,7 @@ GRV_CMD(features) {
             } else if (op == "clone") {
                 fvs[int(val)] = gr_featureval_clone(fvs[fv]); shadow[int(val)] = after;
             } else if (op == "lang") {
-                const gr_uint32 tag = LANG_TAGS[val - 1];
+                const gr_uint32 tag = v->has("langtags") ? gr_uint32((*v)["langtags"].a[val - 1]->num()) : LANG_TAGS[val - 1];
                 fvs[fv] = gr_face_featureval_for_lang(fc.face, (g_cases & 1) ? tag : spacepad(tag)); shadow[fv] = after;
             }
             for (auto &kv : fvs) if (!values_equal(fc, kv.second, shadow[kv.first], why)) { report_fail("C18", "step " + std::to_string(step) + " (" + op + "), value set " + std::to_string(kv.first) + ": " + why, J(line, 900)); break; }
